@@ -447,7 +447,9 @@ class Interp:
             cls = "encl"
         else:
             cls = "local"
-        b = self.new_block(vd.get("name", "_"), cls, nbytes=n * elsize(q), scalar=(not dims))
+        vla = ("[" in _strip_q(q)) and not isp and len(dims) != _strip_q(q).count("[")
+        b = self.new_block(vd.get("name", "_"), cls, nbytes=None if vla else n * elsize(q),
+                           scalar=(not dims) and not vla)
         frame.env[vd["id"]] = b
         return b
 
@@ -578,7 +580,10 @@ class Interp:
             if op in ("++", "--"):
                 b, off = self.lvalue(sub)
                 es = elsize(qtype(n))
-                old = self.load(b, off, n, es)
+                if self.encl_class.get(id(b)) == "reduction":
+                    old = b.data.get(off, UNK)
+                else:
+                    old = self.load(b, off, n, es)
                 d = 1 if op == "++" else -1
                 if isinstance(old, int):
                     new = old + d
@@ -614,7 +619,10 @@ class Interp:
             r = self.eval(rhs)
             b, off = self.lvalue(lhs)
             es = elsize(qtype(lhs))
-            old = self.load(b, off, n, es)
+            if self.encl_class.get(id(b)) == "reduction":
+                old = b.data.get(off, UNK)  # accumulation into a reduction variable: not a plain read
+            else:
+                old = self.load(b, off, n, es)
             new = self.arith(op, old, r, qtype(lhs), n)
             if is_float_type(qtype(lhs)):
                 new = UNK
@@ -1037,8 +1045,12 @@ class Interp:
         classes = {}
         for nm in cl["private"]:
             classes[nm] = "private"
-        for nm in cl["firstprivate"] + cl["reduction"]:
+        for nm in cl["firstprivate"]:
             classes[nm] = "firstprivate"
+        for nm in cl["reduction"]:
+            # private partial result per thread, combined at the end: inside the region only the
+            # accumulation `x op= e` is schedule-independent; any other read sees the thread's partial value
+            classes[nm] = "reduction"
         for nm in cl["lastprivate"]:
             # copied out of the thread that ran the sequentially last iteration
             classes[nm] = "firstlastprivate" if nm in cl["firstprivate"] else "lastprivate"
@@ -1049,18 +1061,9 @@ class Interp:
                 raise ModelError("clause variable %s not found in %s" % (nm, fr.fname))
             self.encl_class[id(by_name[nm])] = c
         self.encl_class[id(lvblock)] = "loopvar"
+        # an `if (...)` clause only selects for which inputs the region runs in parallel: the region is
+        # modelled as parallel (the scenario is small on purpose; the clause may well be false for it)
         par = True
-        if "if" in cl:
-            # evaluate the if-clause expression: it is one of the clause children
-            par = None
-            for c in n.get("inner", []):
-                if c.get("kind") is None and c.get("inner") and c["inner"][0].get("kind") != "DeclRefExpr":
-                    par = self.truth(self.eval(c["inner"][0]))
-                elif c.get("kind") is None and c.get("inner") and len(c["inner"]) == 1 and "if" in cl \
-                        and not (cl["private"] or cl["firstprivate"] or cl["shared"]):
-                    par = self.truth(self.eval(c["inner"][0]))
-            if par is None or par is UNK:
-                raise ModelError("cannot evaluate if-clause %r" % cl["if"])
         self.site_info = dict(pragma=txt, clauses={k: v for k, v in cl.items() if v},
                               loopvar=lvdecl.get("name"), parallel=bool(par))
         private_blocks = [by_name[nm] for nm, c in classes.items() if c in ("private", "lastprivate")]
@@ -1186,6 +1189,16 @@ SCENARIOS = {
         arrays=dict(dos=(8, 3 * 2 * 2 * 2, None), mesh=(8, 3, _MESH), grid_address=(8, _NGP * 3, _grid(_MESH)),
                     relative_grid_address=(8, 96 * 3, _rel_addr(96)), grid_mapping_table=(8, _NGP, [0, 1, 2, 2]),
                     freq_points=(8, 2, None), frequencies=(8, 3 * 2, None), coef=(8, 3 * 2 * 2, None))),
+    "phpy_set_smallest_vectors_dense": dict(
+        ints=dict(num_pos_to=3, num_pos_from=2, num_lattice_points=3, initialize=0),
+        arrays=dict(smallest_vectors=(8, 3 * 2 * 3 * 3, None), multiplicity=(8, 3 * 2 * 2, None), pos_to=(8, 9, None),
+                    pos_from=(8, 6, None), lattice_points=(8, 9, None), reduced_basis=(8, 9, None),
+                    trans_mat=(8, 9, None))),
+    "phpy_set_smallest_vectors_sparse": dict(
+        ints=dict(num_pos_to=3, num_pos_from=2, num_lattice_points=3),
+        arrays=dict(smallest_vectors=(8, 3 * 2 * 27 * 3, None), multiplicity=(4, 6, None), pos_to=(8, 9, None),
+                    pos_from=(8, 6, None), lattice_points=(4, 9, None), reduced_basis=(8, 9, None),
+                    trans_mat=(4, 9, None))),
     "phpy_get_thermal_properties": dict(
         ints=dict(num_temp=2, num_qpoints=3, num_bands=2, classical=0),
         arrays=dict(thermal_props=(8, 6, None), temperatures=(8, 2, None), freqs=(8, 6, None),
@@ -1399,3 +1412,140 @@ def glue_table(prog):
                     axes[pn] = max(axes.get(pn, -1), int(ax["value"]))
         out[name] = dict(func=fn, params=params, ptypes=ptypes, casts={k: sorted(v) for k, v in casts.items()}, axes=axes)
     return out
+
+
+# --------------------------------------------------------------------------
+# build-divergent regions: code (other than OpenMP pragmas / omp.h / omp_* calls) that is
+# compiled only with, or only without, _OPENMP.  The AST (built with -fopenmp) never sees the
+# serial-only half, so these are found on the source text.
+# --------------------------------------------------------------------------
+_COMMENT = re.compile(r"/\*.*?\*/", re.S)
+
+
+def build_divergent_sites(prog):
+    """-> [dict(file, line, branch ('omp'|'serial'), func, code=[lines])]"""
+    out = []
+    for f, lines in prog.src.items():
+        stack = []  # (is_openmp_conditional, branch, start line, code)
+        func_at = _function_ranges(prog, f)
+        i = 0
+        while i < len(lines):
+            raw = lines[i]
+            t = raw.strip()
+            m = re.match(r"#\s*(ifdef|ifndef|if)\b(.*)", t)
+            if m:
+                cond = m.group(2)
+                if "_OPENMP" in cond:
+                    neg = (m.group(1) == "ifndef") or ("!defined" in cond.replace(" ", "")) or ("!_OPENMP" in cond)
+                    stack.append([True, "serial" if neg else "omp", i + 1, []])
+                else:
+                    stack.append([False, None, i + 1, []])
+            elif re.match(r"#\s*else\b", t) and stack:
+                top = stack[-1]
+                if top[0]:
+                    _emit(out, f, top, func_at)
+                    stack[-1] = [True, "serial" if top[1] == "omp" else "omp", i + 1, []]
+            elif re.match(r"#\s*endif\b", t) and stack:
+                top = stack.pop()
+                if top[0]:
+                    _emit(out, f, top, func_at)
+            elif any(x[0] for x in stack):
+                # inside an _OPENMP conditional: what is not a pragma / include / comment is code
+                if re.match(r"#\s*pragma\s+omp\b", t):
+                    while lines[i].rstrip().endswith("\\"):
+                        i += 1
+                elif re.match(r"#\s*include\s*<omp.h>", t):
+                    pass
+                else:
+                    for x in stack:
+                        if x[0]:
+                            x[3].append((i + 1, raw))
+            i += 1
+    return out
+
+
+def _emit(out, f, top, func_at):
+    text = _COMMENT.sub(" ", "\n".join(l for _n, l in top[3]))
+    text = "\n".join(l.split("//")[0] for l in text.split("\n"))
+    code = [l.strip() for l in text.split("\n") if l.strip()]
+    if not code:
+        return
+    line = top[3][0][0]
+    out.append(dict(file=f, line=line, branch=top[1], func=func_at(line), code=code[:12], ncode=len(code)))
+
+
+def _function_ranges(prog, f):
+    rng = []
+    seen = set()
+    for key, (ff, fd) in prog.funcs.items():
+        if ff != f or id(fd) in seen:
+            continue
+        seen.add(id(fd))
+        b = (fd.get("range") or {}).get("begin") or {}
+        e = (fd.get("range") or {}).get("end") or {}
+        lb = b.get("line") or (b.get("expansionLoc") or {}).get("line") or _line_of(fd)
+        le = e.get("line") or (e.get("expansionLoc") or {}).get("line")
+        if lb:
+            rng.append((lb, le, fd["name"]))
+    rng.sort()
+    # clang omits `line` when unchanged: fill missing ends with the next function's start
+    fixed = []
+    for i, (lb, le, nm) in enumerate(rng):
+        if not le or le < lb:
+            le = (rng[i + 1][0] - 1) if i + 1 < len(rng) else 10 ** 9
+        fixed.append((lb, le, nm))
+
+    def at(line):
+        best = None
+        for lb, le, nm in fixed:
+            if lb <= line <= le:
+                best = nm
+        if best is None:
+            for lb, le, nm in fixed:
+                if lb <= line:
+                    best = nm
+        return best
+
+    return at
+
+
+def call_graph(prog):
+    g = {}
+    seen = set()
+    for key, (f, fd) in prog.funcs.items():
+        if id(fd) in seen:
+            continue
+        seen.add(id(fd))
+        cal = set()
+        for n in _walk(fd):
+            if n.get("kind") == "DeclRefExpr" and (n.get("referencedDecl") or {}).get("kind") == "FunctionDecl":
+                cal.add(n["referencedDecl"]["name"])
+        g.setdefault(fd["name"], set()).update(cal)
+    return g
+
+
+def kernels_reaching(prog, funcs):
+    """exported kernel name -> True if its glue function can reach one of `funcs`."""
+    g = call_graph(prog)
+    gt = glue_table(prog)
+    res = {}
+    for kname, ent in gt.items():
+        todo = [ent["func"]]
+        seen = set()
+        hit = set()
+        while todo:
+            x = todo.pop()
+            if x in seen:
+                continue
+            seen.add(x)
+            if x in funcs:
+                hit.add(x)
+            todo += list(g.get(x, ()))
+        if hit:
+            res[kname] = sorted(hit)
+    # exported plain C functions (use_openmp, omp_max_threads)
+    src = "\n".join(prog.src[GLUE])
+    for name, fn in re.findall(r'm\.def\(\s*"(\w+)",\s*&(\w+)\s*\)', src):
+        if name not in gt and fn in funcs:
+            res[name] = [fn]
+    return res
